@@ -395,10 +395,132 @@ const C08_CLASSES: [&str; 6] = ["index", "count", "content", "snapshot", "under_
 /// enumeration, judged only by the content oracle (indices handed out, count, every lookup and
 /// the snapshot iterator against the reference model; lying iterators must be rejected or leave
 /// holes, never publish an index nobody reserved).
+/// One layout of the vector (capacity, columns, how the items got in) at one size: the sequential and
+/// the parallel snapshot iterator from every start must yield exactly `start..count` in order,
+/// each index once, with the published flag the model says (gaps are left by over-reporting batches).
+fn snapshot_layout_case(cap: u32, cols: u32, n: u32, mode: u32, acc: &mut Acc) {
+    struct Over(u32, u32, u32); // yields values lo.., claims `claimed`, delivers `real`
+    impl Iterator for Over {
+        type Item = u32;
+        fn next(&mut self) -> Option<u32> {
+            if self.2 == 0 {
+                return None;
+            }
+            self.2 -= 1;
+            self.0 += 1;
+            Some(self.0 - 1)
+        }
+    }
+    impl ExactSizeIterator for Over {
+        fn len(&self) -> usize {
+            self.1 as usize
+        }
+    }
+    let v: nucleo::verif::VerifVec<u32> = nucleo::verif::VerifVec::with_capacity(cap, cols);
+    let mut model: Vec<bool> = Vec::new();
+    let fill = |_: &u32, c: &mut [nucleo::Utf32String]| {
+        for x in c.iter_mut() {
+            *x = "ab".into();
+        }
+    };
+    match mode {
+        // single pushes
+        0 => {
+            for i in 0..n {
+                v.push(i, fill);
+                model.push(true);
+            }
+        }
+        // batches of 7
+        1 => {
+            let mut i = 0;
+            while i < n {
+                let k = 7.min(n - i);
+                v.extend(Over(i, k, k), fill);
+                model.extend(std::iter::repeat(true).take(k as usize));
+                i += k;
+            }
+        }
+        // one batch for everything
+        2 => {
+            v.extend(Over(0, n, n), fill);
+            model.extend(std::iter::repeat(true).take(n as usize));
+        }
+        // over-reporting batches: every third reserved index stays unpublished
+        _ => {
+            let mut i = 0;
+            while i < n {
+                let k = 3.min(n - i);
+                let real = if k == 3 { 2 } else { k };
+                v.extend(Over(i, k, real), fill);
+                for j in 0..k {
+                    model.push(j < real);
+                }
+                i += k;
+            }
+        }
+    }
+    let count = model.len() as u32;
+    acc.evaluations += 1;
+    acc.states += 1;
+    let describe = |what: &str, start: u32| json!({"capacity": cap, "columns": cols, "items": n, "layout": mode, "iterator": what, "start": start});
+    if v.count() != count {
+        acc.violation("C08/seq/count", "count() differs from the number of reserved indices", || describe("count", 0));
+    }
+    let starts: Vec<u32> = if count <= 130 { (0..=count).collect() } else { let mut s: Vec<u32> = vec![0, 1, 31, 32, 33, 95, 96, 97, 223, 224, 225, 479, 480, 481, 991, 992, 993, 1023, 1024, 1025, 2015, 2016, 2017, count / 2, count - 1, count]; s.retain(|&x| x <= count); s.sort(); s.dedup(); s };
+    for &start in &starts {
+        let want: Vec<(u32, bool)> = (start..count).map(|i| (i, model[i as usize])).collect();
+        let seq: Vec<(u32, bool)> = v.snapshot(start).map(|(i, it)| (i, it.is_some())).collect();
+        acc.transitions += 1;
+        if seq != want {
+            acc.violation("C08/seq/snapshot", "snapshot(start) does not yield start..count in order with the published items", || describe("snapshot", start));
+        }
+        for min_len in [1usize, 5] {
+            let (end, par) = v.par_snapshot_collect(start, min_len);
+            acc.transitions += 1;
+            if end != count || par != want {
+                acc.violation("C08/seq/snapshot", "par_snapshot(start) does not yield start..count exactly once in order with the published items", || describe("par_snapshot", start));
+            }
+        }
+    }
+}
+
+fn snapshot_layouts(rep: &mut Report) {
+    let thorough = rep.is_thorough();
+    let pool = rayon::ThreadPoolBuilder::new().num_threads(4).build().unwrap();
+    let mut sizes: Vec<u32> = (0..=130).collect();
+    sizes.extend([223, 224, 225, 479, 480, 481, 991, 992, 993, 1023, 1024, 1025]);
+    if thorough {
+        sizes.extend(131..=520);
+        sizes.extend([2015, 2016, 2017, 4063, 4064, 4065]);
+    }
+    let mut acc = Acc::new();
+    pool.install(|| {
+        for &cap in &[0u32, 1, 32, 33, 1024] {
+            for cols in [1u32, 2] {
+                for &n in &sizes {
+                    for mode in 0..4 {
+                        if !thorough && cols == 2 && n > 40 {
+                            continue;
+                        }
+                        let r = std::panic::catch_unwind(std::panic::AssertUnwindSafe(|| snapshot_layout_case(cap, cols, n, mode, &mut acc)));
+                        if r.is_err() {
+                            acc.violation("C08/seq/snapshot", "building or iterating a vector layout panicked", || json!({"capacity": cap, "columns": cols, "items": n, "layout": mode}));
+                        }
+                    }
+                }
+            }
+        }
+    });
+    acc.nontrivial += acc.evaluations;
+    rep.acc.merge(acc);
+}
+
 pub fn c08_seq_child(tier: &str) -> ! {
     crate::dom::quiet_panics();
     let mut rep = Report::new("C08", tier);
     run_seq(&mut rep);
+    snapshot_layouts(&mut rep);
     let mut viols = Vec::new();
     for (sig, class) in rep.acc.violations.iter() {
         let cl = sig.rsplit('/').next().unwrap_or("");
@@ -415,6 +537,11 @@ pub fn c08_seq_child(tier: &str) -> ! {
 }
 
 pub fn replay_case_c08(c: &Value, acc: &mut Acc) {
+    if let (Some(cap), Some(cols), Some(n), Some(mode)) = (c["capacity"].as_u64(), c["columns"].as_u64(), c["items"].as_u64(), c["layout"].as_u64()) {
+        let pool = rayon::ThreadPoolBuilder::new().num_threads(4).build().unwrap();
+        pool.install(|| snapshot_layout_case(cap as u32, cols as u32, n as u32, mode as u32, acc));
+        return;
+    }
     let mut inner = Acc::new();
     replay_case(c, &mut inner);
     for (sig, class) in inner.violations {
